@@ -5,7 +5,7 @@ from . import progs as P
 from . import pcheck
 from .searchc import mk_case, seq_of
 
-CONE = ["Proofs/FDPropProofs.vo", "Proofs/EngineProofs.vo", "Proofs/FDDen.vo", "Proofs/FDComp.vo", "Proofs/FDProg.vo", "Proofs/Complete0.vo", "Proofs/ForceC.vo", "Proofs/Unique.vo", "Proofs/QStream.vo"]
+CONE = ["Proofs/FDPropProofs.vo", "Proofs/EngineProofs.vo", "Proofs/FDDen.vo", "Proofs/FDComp.vo", "Proofs/FDProg.vo", "Proofs/Complete0.vo", "Proofs/ForceC.vo", "Proofs/Unique.vo", "Proofs/QStream.vo", "Proofs/LibCor.vo"]
 VARS = ["q", "r", "h"]
 
 
